@@ -5,6 +5,7 @@ package main
 import (
 	"fmt"
 	"go/ast"
+	"go/constant"
 	"go/token"
 	"strings"
 )
@@ -29,12 +30,40 @@ func (t *numTr) call(x *ast.CallExpr, st *state, fr *frame, k kont) term {
 			case "panic":
 				return t.eval(x.Args[0], st, fr, func(v val, st *state) term {
 					if e, ok := v.(vErr); ok {
-						return tLeaf{".error ." + e.kind}
+						return t.raise(fr, e, st)
 					}
 					t.fail(x, "panic with a value that is not a known error (%T)", v)
 					return nil
 				})
-			case "len", "recover", "make", "append":
+			case "recover":
+				if !fr.deferred {
+					t.fail(x, "recover outside a deferred function")
+				}
+				if fr.recovered == nil {
+					return k(vNil{}, st)
+				}
+				return k(fr.recovered, st)
+			case "len":
+				return t.eval(x.Args[0], st, fr, func(v val, st *state) term {
+					if b, ok := v.(vBits); ok {
+						return k(vInt{e: "(Go.wordLen " + b.of + ")", k: ikind{true, 64}}, st)
+					}
+					t.fail(x, "len of %T", v)
+					return nil
+				})
+			case "max", "min":
+				return t.evalList(x.Args, st, fr, func(vs []val, st *state) term {
+					if len(vs) != 2 {
+						t.fail(x, "%s with %d arguments", f.Name, len(vs))
+					}
+					a, ok1 := vs[0].(vInt)
+					b, ok2 := vs[1].(vInt)
+					if !ok1 || !ok2 || a.k != b.k {
+						t.fail(x, "%s on %T and %T", f.Name, vs[0], vs[1])
+					}
+					return k(vInt{e: "(" + f.Name + " " + a.e + " " + b.e + ")", k: a.k}, st)
+				})
+			case "make", "append":
 				t.fail(x, "unsupported builtin %s", f.Name)
 			}
 			if ty := t.resolveType(fr.pkg, f); ty.kind == "int" {
@@ -52,7 +81,7 @@ func (t *numTr) call(x *ast.CallExpr, st *state, fr *frame, k kont) term {
 				t.fail(x, "call of a non-function value %T", fv)
 			}
 			return t.evalList(x.Args, st, fr, func(args []val, st *state) term {
-				return t.callClosure(x, cl, args, st, k)
+				return t.callClosure(x, cl, args, st, fr, k)
 			})
 		})
 	case *ast.SelectorExpr:
@@ -67,7 +96,7 @@ func (t *numTr) call(x *ast.CallExpr, st *state, fr *frame, k kont) term {
 		})
 	case *ast.FuncLit:
 		return t.evalList(x.Args, st, fr, func(args []val, st *state) term {
-			return t.callClosure(x, vClosure{lit: f, st: st, pkg: fr.pkg}, args, st, k)
+			return t.callClosure(x, vClosure{lit: f, st: st, pkg: fr.pkg}, args, st, fr, k)
 		})
 	}
 	t.fail(x, "unsupported call form %T", x.Fun)
@@ -108,6 +137,17 @@ func (t *numTr) pkgCall(x *ast.CallExpr, pkg, name string, st *state, fr *frame,
 		}
 	}
 	switch full {
+	case "unsafe.Sizeof":
+		// size of a word-sized type on the 64-bit platform the harness runs on
+		if c, ok := x.Args[0].(*ast.CallExpr); ok {
+			switch t.errTypeString(fr.pkg, c.Fun) {
+			case "big.Word", fr.pkg + ".uintptr", fr.pkg + ".uint", fr.pkg + ".int", fr.pkg + ".int64", fr.pkg + ".uint64":
+				return k(vConst{constant.MakeInt64(8)}, st)
+			}
+		}
+		t.fail(x, "unsafe.Sizeof of an unknown type")
+	case "errors.NewDefaultUserError":
+		return k(vErr{kind: "userError", gotype: "errors.DefaultUserError"}, st)
 	case "errors.NewUnreachableError":
 		return k(vErr{kind: "unreachable", gotype: "errors.UnreachableError"}, st)
 	case "big.NewInt":
@@ -239,13 +279,14 @@ func (t *numTr) inline(x *ast.CallExpr, fd *ast.FuncDecl, pkg string, recv val, 
 			back := &state{vars: outerVars, store: s2.store, immut: s2.immut, facts: s2.facts}
 			return k(v, back)
 		}}
+		nf.onPanic = fr.onPanic
 		t.depth++
 		defer func() { t.depth-- }()
 		return t.execBody(fd.Body, inner, nf, len(results) == 0)
 	})
 }
 
-func (t *numTr) callClosure(x ast.Node, cl vClosure, args []val, st *state, k kont) term {
+func (t *numTr) callClosure(x ast.Node, cl vClosure, args []val, st *state, caller *frame, k kont) term {
 	vars := map[string]val{}
 	for n, v := range cl.st.vars {
 		vars[n] = v
@@ -273,6 +314,9 @@ func (t *numTr) callClosure(x ast.Node, cl vClosure, args []val, st *state, k ko
 		return k(v, &state{vars: outerVars, store: s2.store, immut: s2.immut, facts: s2.facts})
 	}}
 	nf.captured = captured
+	if caller != nil {
+		nf.onPanic = caller.onPanic
+	}
 	t.depth++
 	defer func() { t.depth-- }()
 	return t.execBody(cl.lit.Body, inner, nf, len(results) == 0)
@@ -282,7 +326,7 @@ func (t *numTr) methodCall(x *ast.CallExpr, recv val, name string, st *state, fr
 	switch r := recv.(type) {
 	case vBig:
 		return t.evalList(x.Args, st, fr, func(args []val, st *state) term {
-			return t.bigMethod(x, r, name, args, st, k)
+			return t.bigMethod(x, r, name, args, st, fr, k)
 		})
 	case vInt, vStruct:
 		tn := nameOf(recv)
@@ -317,9 +361,9 @@ func (t *numTr) methodCall(x *ast.CallExpr, recv val, name string, st *state, fr
 }
 
 // the *big.Int method vocabulary; z.Op(x, y) sets z and returns z
-func (t *numTr) bigMethod(x *ast.CallExpr, z vBig, name string, args []val, st *state, k kont) term {
+func (t *numTr) bigMethod(x *ast.CallExpr, z vBig, name string, args []val, st *state, fr *frame, k kont) term {
 	if z.cell < 0 {
-		return tLeaf{".error .goPanic"} // nil receiver
+		return t.raise(fr, goRuntimePanic, st) // nil receiver
 	}
 	arg := func(i int) string { return t.bigExpr(x, args[i], st) }
 	native := func(i int, kinds ...ikind) string {
@@ -357,7 +401,7 @@ func (t *numTr) bigMethod(x *ast.CallExpr, z vBig, name string, args []val, st *
 	case "Quo", "Rem", "Div", "Mod":
 		fn := map[string]string{"Quo": "Int.tdiv", "Rem": "Int.tmod", "Div": "Int.ediv", "Mod": "Int.emod"}[name]
 		a, b := arg(0), arg(1)
-		return t.guard(st, "("+b+" = 0)", tLeaf{".error .goPanic"}, func(s *state) term {
+		return t.guard(st, "("+b+" = 0)", func(s *state) term { return t.raise(fr, goRuntimePanic, s) }, func(s *state) term {
 			st = s
 			return set("(" + fn + " " + a + " " + b + ")")
 		})
@@ -385,6 +429,8 @@ func (t *numTr) bigMethod(x *ast.CallExpr, z vBig, name string, args []val, st *
 		return set("(Go.land " + arg(0) + " (-" + arg(1) + " - 1))")
 	case "Not":
 		return set("(-" + arg(0) + " - 1)")
+	case "Bits":
+		return k(vBits{self}, st)
 	case "Cmp":
 		o := arg(0)
 		return k(vInt{e: "(Go.cmp " + self + " " + o + ")", k: i64, cmp: &[2]string{self, o}}, st)
@@ -562,7 +608,49 @@ func (t *numTr) exec(stmts []ast.Stmt, st *state, fr *frame, next func(*state) t
 			return fr.ret(vTuple{vs}, st)
 		})
 	case *ast.DeferStmt:
-		t.fail(s, "defer is outside the NumGo subset")
+		// `defer func() { ... }()`: the deferred body runs on every exit of this frame — on a normal
+		// return (recover() = nil) and on a panic (recover() = the panic value; when the body
+		// completes without panicking again the function returns the zero values of its results)
+		lit, ok := s.Call.Fun.(*ast.FuncLit)
+		if !ok || len(s.Call.Args) != 0 {
+			t.fail(s, "defer of anything but a parameterless function literal")
+		}
+		if fr.captured != nil || fr.deferred {
+			t.fail(s, "defer inside a closure")
+		}
+		prevPanic, prevRet := fr.onPanic, fr.ret
+		deferVars := st.vars
+		pkg := fr.pkg
+		results := fr.results
+		runDeferred := func(rec val, st *state, after func(*state) term) term {
+			df := &frame{pkg: pkg, deferred: true, recovered: rec, onPanic: prevPanic, locals: map[string]bool{},
+				captured: map[string]bool{},
+				ret: func(_ val, s2 *state) term { return after(s2) }}
+			for n := range deferVars {
+				df.captured[n] = true
+			}
+			inner := &state{vars: deferVars, store: st.store, immut: st.immut, facts: st.facts}
+			return t.execBody(lit.Body, inner, df, true)
+		}
+		fr.onPanic = func(e vErr, st *state) term {
+			return runDeferred(e, st, func(s2 *state) term {
+				zs := make([]val, len(results))
+				for i, r := range results {
+					zs[i] = t.zero(r)
+				}
+				switch len(zs) {
+				case 0:
+					return prevRet(vVoid{}, s2)
+				case 1:
+					return prevRet(zs[0], s2)
+				}
+				return prevRet(vTuple{zs}, s2)
+			})
+		}
+		fr.ret = func(v val, st *state) term {
+			return runDeferred(nil, st, func(s2 *state) term { return prevRet(v, s2) })
+		}
+		return rest(st)
 	}
 	t.fail(stmts[0], "unsupported statement %T", stmts[0])
 	return nil
